@@ -16,6 +16,7 @@
 // <schema>: "-" (no field) or fields joined by ',', each  name:p:spec  or  name:e:v1/v2 ("0" = no variant);
 //           names / specs / variants hex, "-" = empty string.
 // <etype> : "=" (the type this case defined) or the hex of another name.
+// (store_text: <json> may be "!" = the text is not valid JSON and denotes no command)
 // <json>  : n | t | f | u<dec>. | i<dec>. | d<16 hex bits> | s<hex>. | a<k>.items | o<k>.(<hex key>.value)*
 use crate::probes::unhex;
 pub const PREFIX: &str = "store_";
@@ -441,13 +442,21 @@ pub fn run(t: &[String]) -> String {
             format!("D={} S={} {}", d, s, observe(&name))
         }
         "store_text" => {
-            let Some(tree) = json_tok(&t[5]) else { return "GENBUG json".into() };
             let text = hs(&t[4]);
-            // generator self-check: the tree is what the text denotes (serde_json without
-            // float_roundtrip may be one ulp off on floats, so floats are compared up to one ulp)
-            match serde_json::from_str::<Value>(&text) {
-                Ok(v) if same_json(&v, &tree) => {}
-                _ => return "GENBUG text/tree".into(),
+            if t[5] == "!" {
+                // "!": the payload text is NOT valid JSON (unclosed / stray braces ...); generator
+                // self-check: the reference parser rejects it too
+                if serde_json::from_str::<Value>(&text).is_ok() {
+                    return "GENBUG text is valid JSON".into();
+                }
+            } else {
+                let Some(tree) = json_tok(&t[5]) else { return "GENBUG json".into() };
+                // generator self-check: the tree is what the text denotes (serde_json without
+                // float_roundtrip may be one ulp off on floats, so floats are compared up to one ulp)
+                match serde_json::from_str::<Value>(&text) {
+                    Ok(v) if same_json(&v, &tree) => {}
+                    _ => return "GENBUG text/tree".into(),
+                }
             }
             let (name, d) = define_once("text", &t[1], true);
             let (mode, ctxh) = t[3].split_at(1);
